@@ -139,7 +139,8 @@ ObsFlush == status = "running" /\ UNCHANGED obsVars
 (* formats, other supply mode or read schedule) must agree; cmp is the     *)
 (* byte-level relation of this output to the first one.                    *)
 (***************************************************************************)
-End(res, key, digest, cmp, readMsg, fEnd) ==   \* fEnd: whole frames accepted when the call returns
+End(res, key, digest, cmp, readMsg, fEnd, recOk) ==   \* fEnd: whole frames accepted when the call returns;
+                                                     \* recOk: an independent reader of the target recovers exactly the documents written so far
   /\ status = "running"
   /\ call.known => fEnd >= written                  \* (counts frames of zero length too)
   /\ res \in {"ok", "err"}
@@ -149,6 +150,7 @@ End(res, key, digest, cmp, readMsg, fEnd) ==   \* fEnd: whole frames accepted wh
         /\ fEnd - base = IdealHere(call, docsSeen)                    \* C03: every document written ..
         /\ (to # "toml") => fEnd - base = call.ndocs                  \*      .. and none missing
         /\ ~partial /\ ~over
+        /\ On("C03") => recOk                                          \* C03: framed so that a reader recovers exactly N documents
   /\ (On("C08") /\ to = "toml" /\ call.known) =>
         /\ res = "ok" => \/ call.ndocs = 0                             \* an input that holds no document is harmless
                          \/ (docsSeen + call.ndocs <= 1 /\ call.badAt = 0) \* a second document is refused ..
